@@ -162,7 +162,9 @@ def run(ctx, out):
                     if fb is not None and not kind.startswith("truncated") and rng.random() < 0.5:
                         items.append(rng.choice(letters)[0])       # something else queued behind the fault
                     k = rng.choice([0, 0, 0, 1, 2, 5])          # a share with short reads (every client read limited to k bytes)
-                    ops.append(f"seq{'@%d' % k if k else ''} {s['name']} {cmd.hex()} " + (",".join(i.hex() for i in items) if items else "."))
+                    # … some of those with 6 / 61 virtual seconds before every piece (a packet that trickles in): same outcome
+                    tag = ("@%d" % k if k else "") + ("@%d" % rng.choice([6, 61]) if k and rng.random() < 0.4 else "")
+                    ops.append(f"seq{tag} {s['name']} {cmd.hex()} " + (",".join(i.hex() for i in items) if items else "."))
                     if pos == "ack":
                         want_prefix.append([f"w:{cmd.hex()}"])
                     else:
